@@ -364,7 +364,28 @@ def install_eq_contract(h):
 
 USER_PAIRS = [("sum", "rev"), ("sum", "int"), ("int", "sum"), ("bare", "sum"),
               ("nested", "neg"), ("int", "int"), ("bare", "bare")]
-USERS = ["stack", "broadcast", "einsum", "call", "where"]
+USERS = ["stack", "broadcast", "einsum", "call", "where", "einsum3",
+         "index-int"]
+
+
+def nonneg_all(T):
+    """forall p >= 0: T(p) >= 0 for affine T = c0 + sum ci*pi: c0 >= 0 and
+    every ci >= 0, read off the unit grid."""
+    z = {nm: 0 for nm in PARAM_NAMES}
+    return z3.And([at(T, z) >= 0] + [at(T, w) >= at(T, z)
+                                     for w in unit_grid(len(PARAM_NAMES))])
+
+
+def install_nonneg_contract(h):
+    """Callers are checked against the contract of _is_non_negative
+    (proved by symshape.nonneg), not its body."""
+    from pytato.utils import _is_non_negative
+    from pyvc.sym import mk_bool
+
+    def stub(interp, fn, args, kwargs):
+        (e,) = args
+        return mk_bool(nonneg_all(shape_term(e)))
+    h.interp.contracts[_is_non_negative] = stub
 
 
 @contract
@@ -427,6 +448,21 @@ class ShapeUsers(Contract):
         elif user == "einsum":
             call = lambda: h.call(pt.einsum, "ij,ij->ij", a, b)   # noqa: E731
             accept, shape = bcast_ok, bshape
+        elif user == "einsum3":
+            # a leading operand whose axis is literally 1: the two others
+            # still have to agree with each other
+            u = mk_placeholder(h, "u", shape=(1, three))
+            call = lambda: h.call(pt.einsum, "ij,ij,ij->ij", u, a, b)  # noqa: E731
+            accept, shape = bcast_ok, bshape
+        elif user == "index-int":
+            # an integer index into an axis of symbolic length is accepted
+            # only if it is in bounds for *every* size
+            install_nonneg_contract(h)
+            kk = h.int("k")
+            K_ = z_of(kk)
+            call = lambda: h.interp.subscript(a, (kk,))   # noqa: E731
+            accept = z3.And(nonneg_all(K_ + D1), nonneg_all(D1 - 1 - K_))
+            shape = [z3.IntVal(3)]
         elif user == "call":
             from pytato.function import FunctionDefinition, ReturnType
             from constantdict import constantdict
@@ -442,7 +478,7 @@ class ShapeUsers(Contract):
             res = call()
         except EngineSignal:
             raise
-        except (ValueError, TypeError) as e:
+        except (ValueError, TypeError, IndexError) as e:
             if h.canary == "equal-at-zero-suffices":
                 z = {nm: 0 for nm in PARAM_NAMES}
                 accept = at(D1, z) == at(D2, z)
@@ -455,7 +491,15 @@ class ShapeUsers(Contract):
             return
         h.oblige(f"symshape.users.accepted=>equal-for-all-sizes[{user}]",
                  accept)
-        rshape = h.interp.getattr(res, "shape")
+        try:
+            rshape = h.interp.getattr(res, "shape")
+        except EngineSignal:
+            raise
+        except Exception as e:  # noqa: BLE001
+            # accepted, but the node cannot tell its shape
+            h.fail(f"symshape.users.inferred-shape-available[{user}]",
+                   f"{type(e).__name__}: {e}")
+            return
         if len(rshape) != len(shape):
             h.fail(f"symshape.users.inferred-rank[{user}]",
                    f"{len(rshape)} != {len(shape)}")
@@ -484,8 +528,12 @@ for (a0, a), (b0, b) in cands:
     v1 = [value(f1, k, a0, a, p) for p in pts]
     v2 = [value(f2, k, b0, b, p) for p in pts]
     same = v1 == v2
-    ok = same or (user in ("broadcast", "where", "einsum") and
+    ok = same or (user in ("broadcast", "where", "einsum", "einsum3") and
                   (set(v1) == {{1}} or set(v2) == {{1}}))
+    if user == "index-int":
+        kidx = model.get("k", 1)
+        kidx = int(kidx) if str(kidx).lstrip("-").isdigit() else 1
+        ok = all(-v <= kidx < v for v in v1)
     A = pt.make_placeholder("a", (d1, 3), np.float64)
     B = pt.make_placeholder("b", (d2, 3), np.float64)
     try:
@@ -493,6 +541,9 @@ for (a0, a), (b0, b) in cands:
         elif user == "broadcast": A + B
         elif user == "where": pt.where(pt.make_placeholder("c", (3,), np.bool_), A, B)
         elif user == "einsum": pt.einsum("ij,ij->ij", A, B)
+        elif user == "einsum3":
+            pt.einsum("ij,ij,ij->ij", pt.make_placeholder("u", (1, 3), np.float64), A, B).shape
+        elif user == "index-int": A[kidx]
         elif user == "call":
             f = lambda x: x + 1
             pt.trace_call(f, A).call.function(x=B) if False else None
@@ -502,8 +553,15 @@ for (a0, a), (b0, b) in cands:
             FunctionDefinition(parameters=frozenset({{"x"}}), return_type=ReturnType.ARRAY,
                                returns=constantdict({{"_": X + 1}}), tags=frozenset())(x=B)
         got = True
-    except (ValueError, TypeError) as e:
+    except (ValueError, TypeError, IndexError) as e:
         got = False
+    except AssertionError as e:
+        reproduced(f"{{user}} of axis lengths {{f1}}{{(a0, a)}} and {{f2}}{{(b0, b)}} "
+                   f"is accepted but the node cannot tell its shape")
+    if user == "index-int" and not got and not ok:
+        continue
+    if user == "index-int" and not got and ok and False:
+        pass
     if got != ok:
         reproduced(f"{{user}} of axis lengths {{f1}}{{(a0, a)}} and {{f2}}{{(b0, b)}}: "
                    f"{{'accepted' if got else 'rejected'}}, but the lengths are "
@@ -592,10 +650,14 @@ compare(node, data, expect, exact=False)
 """
 
 
-def _param_variant(base, vname, keep, extra_functions=(), replay_fn=None):
+def _param_variant(base, vname, keep, extra_functions=(), replay_fn=None,
+                   also=()):
     class V(base):
         name = vname
-        properties = ("C16",)
+        # (C11 quantifies over "all non-negative values of the size
+        # parameters": the in-bounds clauses of the lowering variants, whose
+        # props name C11, are C11's too)
+        properties = ("C16", *also)
         props_for_all_clauses = ("C16",)
         functions = tuple(base.functions) + (
             "pytato.utils:dim_to_index_lambda_components",
@@ -630,17 +692,20 @@ def _install_variants():
     from contracts import c01_builders as c01
     from contracts import c02_lowering as c02
     q = lambda tier: tier != "thorough"   # noqa: E731
-    _param_variant(c02.LowerRoll, "symshape.lower.roll", lambda i, t: True)
-    _param_variant(c02.LowerStack, "symshape.lower.stack", lambda i, t: True)
+    _param_variant(c02.LowerRoll, "symshape.lower.roll", lambda i, t: True,
+                   also=("C11",))
+    _param_variant(c02.LowerStack, "symshape.lower.stack", lambda i, t: True,
+                   also=("C11",))
     _param_variant(c02.LowerAxisPermutation,
-                   "symshape.lower.axis_permutation", lambda i, t: True)
+                   "symshape.lower.axis_permutation", lambda i, t: True,
+                   also=("C11",))
     ES = {"ij,jk->ik", "ij,ij->", "ij,j->i", "i,i->", "ij->ji", "ij->",
           "i,j->ij", "ii->i", "ij,ij->ij", "im,mj,km->ijk", "ij,jk,kl->il",
           "ij,ji->", "i->"}
     _param_variant(c02.LowerEinsum, "symshape.lower.einsum",
                    lambda i, t: (i["label"].split(";")[0] in ES) or (
                        t == "thorough" and len(i["ins"]) == 2),
-                   replay_fn=einsum_param_replay)
+                   replay_fn=einsum_param_replay, also=("C11",))
     _param_variant(c01.BinaryOps, "symshape.build.binary",
                    lambda i, t: i["kind"] in ("mismatch", "arrarr", "cmp")
                    and (i.get("op") in ("add", "less", None)
